@@ -159,6 +159,11 @@ def main():
       "path": "engine",
       "serves_properties": sorted(CHECKS.keys()),
       "kind_free_text": "Rust crate: proptest-driven generators, reference models and differential/metamorphic oracles over deno_graph (path dependency on /repo); worker processes, shrinking, replay files, evidence writer",
+    }, {
+      "name": "fz_analyze",
+      "path": "fuzz",
+      "serves_properties": ["C08", "C13"],
+      "kind_free_text": "cargo-fuzz / libFuzzer target (nightly toolchain, offline) with the C08 range round-trip and the C13 JSON round-trip oracles inside; run on top of the proptest layers by `run.sh C08|C13 thorough` through tools/fuzz_layer.sh, seeded from the generators and the spec corpus; its executions are added to the evidence of the thorough run",
     }],
     "checks": checks,
     "notes": "Exit 0 = held on everything explored, 1 = VIOLATION line, 2 = harness problem (never a violation). Known findings: /verif/known_findings.json.",
